@@ -439,6 +439,9 @@ LAMBDAS2 = [(q - 1, 0), (0, 1), (2, 0), (0, q - 1), (1, 1), (1 << 255, 0), (1, 5
 
 
 def lam_for(rng, which):
+    if rng.random() < 0.06:
+        z = SIXTH_ROOTS[rng.randrange(len(SIXTH_ROOTS))]
+        return z if which == 1 else (z, 0)
     if which == 1:
         if rng.random() < 0.5:
             return LAMBDAS1[rng.randrange(len(LAMBDAS1))]
@@ -450,6 +453,34 @@ def lam_for(rng, which):
         y = (rng.randrange(1, q), rng.randrange(1, q))
         return rm.f2mul((y[0], (-y[1]) % q), rm.f2inv(y))
     return (rng.randrange(q), rng.randrange(1, q))
+
+
+BETA_Q = next(b for b in (pow(g, (q - 1) // 3, q) for g in range(2, 50)) if b != 1)
+# sixth roots of unity of Fq (also of Fq2, as (z, 0)): the curves have a = 0, so (x, y, zeta) is a representative of the curve point
+# (x / zeta^2, y / zeta^3) - a DIFFERENT point whose raw X and Y are those of (x, y)
+SIXTH_ROOTS = [q - 1, BETA_Q, BETA_Q * BETA_Q % q, (q - BETA_Q) % q, (q - BETA_Q * BETA_Q) % q]
+SPECIAL_DLOGS = [1, r - 1, LAMBDA_R, LAMBDA_R * LAMBDA_R % r, r - LAMBDA_R, r - LAMBDA_R * LAMBDA_R % r]
+
+
+def dlog(rng):
+    """discrete logarithm of a base point: mostly uniform, sometimes a WELL-KNOWN point - the generator, its negative and their images
+    under the cube-root-of-unity endomorphism (what a generator cache or fixed-base table would be keyed on), 2G, G/2"""
+    if rng.random() < 0.12:
+        return rng.choice(SPECIAL_DLOGS + [1, 1, r - 1, 2, (r + 1) // 2])
+    return rng.randrange(1, r)
+
+
+def alias_scale(which, P):
+    """a sixth root of unity zeta such that the representative (zeta^2 x, zeta^3 y, zeta) of P has the RAW X and Y of the generator
+    (exists iff P is one of +-G, +-phi(G), +-phi^2(G) and P != G); None otherwise"""
+    F = F1 if which == 1 else F2
+    G = rm.gmul(which, 1)
+    for z in SIXTH_ROOTS:
+        lam = z if which == 1 else (z, 0)
+        l2 = F.mul(lam, lam)
+        if F.mul(P[0], l2) == G[0] and F.mul(P[1], F.mul(l2, lam)) == G[1]:
+            return lam
+    return None
 
 
 class Prog:
@@ -491,6 +522,11 @@ def point(prog, rng, which, k, rep):
         return prog.let(g + '.lit', rm.jac_lit(F, P))[0]
     if rep == 'scaled':
         lam = lam_for(rng, which)
+        if k % r in SPECIAL_DLOGS and rng.random() < 0.6:
+            # the representative whose raw X and Y are exactly the generator's although it denotes another point (z a sixth root of unity)
+            l2 = alias_scale(which, P)
+            if l2 is not None:
+                return prog.let(g + '.lit', rm.jac_lit(F, P, l2))[0]
         if rng.random() < 0.3:
             # a scale for which the point becomes affine (z = 1) exactly after k doublings inside a ladder / Miller loop
             l2 = znorm_lambda(which, P, rng.choice([1, 2, 3, 3, 4]))
